@@ -40,7 +40,7 @@ RULE = ("exhaustive: every operator sequence of length 1..5 over {+,-,*,/,^} x e
         "the tool at the start of the run); the result list must be exactly [exact value of the intended tree] for "
         "every spelling and layout, so all layouts agree. A shape is *discriminating* if its value is unique among all bracketings of "
         "the same operator/operand sequence. Plus parenthesised operands as function arguments, `to` with length units, and random "
-        "deeper trees with random layouts. non-trivial = distinct discriminating shape, or distinct to/function/random case with >=2 operators")
+        "deeper trees with random layouts, and one-sided nestings of 5-40 parenthesised levels (continued fractions, Horner schemes, nested calls). non-trivial = distinct discriminating shape, or distinct to/function/random case with >=2 operators")
 
 # ---------------------------------------------------------------- shapes
 def bracketings(n):
@@ -292,6 +292,15 @@ def gen_to(rng):
         return ("bin", rng.choice("+-"), a, ("to", b, u1))                                  # a + (b to u)
     return ("to", ("bin", rng.choice("+-"), ("bin", rng.choice("+-"), a, b), c), u1)       # a + b - c to u
 
+def ev_calls(t):
+    """exact.ev for trees that also contain ('call', 'round', [x])."""
+    if t[0] == "call":
+        return exact.call(t[1], [ev_calls(a) for a in t[2]])
+    if t[0] == "bin":
+        a, b = ev_calls(t[2]), ev_calls(t[3])
+        return exact.ev(("bin", t[1], ("lit", "", a), ("lit", "", b)))
+    return exact.ev(t)
+
 def shard_misc(p):
     acc = Acc()
     exact.MAX_BITS, exact.MAX_EXP = 6000, 160
@@ -331,6 +340,32 @@ def shard_misc(p):
                     text = layout(tk, rng, mode)
                     reqs.append({"op": "query", "q": text})
                     meta.append(("fn:" + style + ":" + mode, text, want, 2))
+        for _ in range(p.get("n_deep", 0)):
+            # deep one-sided nesting (continued fractions, Horner schemes, nested calls): 5-40 parenthesised levels, each inside a
+            # looser and a tighter operator - fixed-size parser stacks and depth counters only show here (seed C06-d)
+            depth = rng.choice([5, 8, 9, 12, 16, 17, 18, 24, 33, 40])
+            style_ = rng.randint(0, 3)
+            t = exact.int_lit(rng.randint(1, 9))
+            for lvl in range(depth):
+                a, b = exact.int_lit(rng.randint(1, 9)), exact.int_lit(rng.randint(1, 3))
+                if style_ == 0:      # a + b / (t)
+                    t = ("bin", rng.choice("+-"), a, ("bin", "/", b, t))
+                elif style_ == 1:    # a + b * (t)
+                    t = ("bin", rng.choice("+-"), a, ("bin", "*", b, t))
+                elif style_ == 2:    # (t) * b + a   (left-nested)
+                    t = ("bin", rng.choice("+-"), ("bin", "*", t, b), a)
+                else:                # a + round(t) / b
+                    t = ("bin", "+", a, ("bin", "/", ("call", "round", [t]), b))
+            try:
+                v = ev_calls(t)
+            except Exception:
+                continue
+            for style in ("full", "min"):
+                tk = tokens(t, style)
+                for mode in ("single", "tight", "random"):
+                    text = layout(tk, rng, mode)
+                    reqs.append({"op": "query", "q": text})
+                    meta.append(("deep:" + style + ":" + mode, text, v, depth))
         for _ in range(p["n_rand"]):
             e = exact.gen_tree(rng, rng.randint(2, p["depth"]), max_digits=6, max_exp=6)
             try:
@@ -371,10 +406,10 @@ def run(tier, seed):
     if tier == "quick":
         # all sequences up to length 4 with all bracketings; length 5: every sequence with 6 of its 42 bracketings
         plan = [("dbg", seqs, 0, 1)]
-        misc = {"n_to": 150, "n_fn": 150, "n_rand": 400, "depth": 5}
+        misc = {"n_to": 150, "n_fn": 150, "n_rand": 400, "depth": 5, "n_deep": 12}
     else:
         plan = [("dbg", seqs, 0, 3), ("rel", seqs, 0, 2)]
-        misc = {"n_to": 4000, "n_fn": 4000, "n_rand": 12000, "depth": 7}
+        misc = {"n_to": 4000, "n_fn": 4000, "n_rand": 12000, "depth": 7, "n_deep": 400}
     acc = Acc()
     for kind, work, sample_shapes, layouts in plan:
         work = list(work)
